@@ -438,6 +438,21 @@ ActivationRules ==
           /\ MS.prop[id].end <= (IF last'.a = "Activate" THEN last'.sectors[k].expiry ELSE last'.sectors[k].commit)
 \* "activated at most once": a deal state is never re-created for an id that had one
 ActivatedOnce == \A id \in DOMAIN MS'.st \ DOMAIN MS.st : id \notin G.act
+\* ... also within one message: a sector whose activation is accepted lists no deal twice, and no deal is accepted
+\* for two sectors of the same batch
+ActivatedOnceInCall ==
+  (last'.a = "Activate" /\ last'.ok /\ "res" \in DOMAIN last') =>
+     \A k \in 1..Len(last'.sectors) : (k <= Len(last'.res) /\ last'.res[k]) =>
+        LET ids == last'.sectors[k].ids IN
+        /\ \A i, j \in 1..Len(ids) : i # j => ids[i] # ids[j]
+        /\ \A k2 \in 1..(k - 1) : last'.res[k2] => {ids[i] : i \in 1..Len(ids)} \cap {last'.sectors[k2].ids[i] : i \in 1..Len(last'.sectors[k2].ids)} = {}
+\* C07: payments run "between the deal's start and the earlier of its end or its sector's termination": an accepted
+\* termination of a sector ends every running deal stored in it (none is left behind to be paid until its end)
+TerminationEndsDeals ==
+  (last'.a = "Terminate" /\ last'.ok) =>
+     \A id \in DOMAIN MS.st :
+        (id \in DOMAIN MS.prop /\ MS.prop[id].p = last'.m /\ epoch < MS.prop[id].end
+         /\ \E k \in 1..Len(last'.secs) : last'.secs[k] = MS.st[id].sector) => id \notin DOMAIN MS'.st
 RejectedIsNoop == (~last'.ok) => MS' = MS
 
 \* every pending entry belongs to a live proposal
